@@ -262,9 +262,9 @@ def FdTarget (w : World) (tx : Tx) : Prop :=
   tx.type = .feeDelegation → ∀ r, tx.recipient = some r → (w.acct r).code = true
 
 /-- **Σ balances + BpReward is invariant under `executeTx`**, for every transaction type and outcome,
-outside the three defect shapes (`nameGuard`, `leak`). -/
+outside the defect shape flagged `leak`. -/
 theorem executeTx_total' {c : Ctx} {w : World} {bp : Nat} {tx : Tx} {res : Result}
-    (hsig : Signable w tx) (hfd : FdTarget w tx) (hg : nameGuard w tx)
+    (hsig : Signable w tx) (hfd : FdTarget w tx)
     (h : executeTx c w bp tx = res) (hl : res.leak = false) :
     res.w.total + res.bp = w.total + bp := by
   unfold executeTx at h
@@ -322,7 +322,7 @@ theorem executeTx_total' {c : Ctx} {w : World} {bp : Nat} {tx : Tx} {res : Resul
                 have hrid : rcv.id = aName := (m3 _ hrc).1
                 have hne : (w.getCopy tx.sender).id ≠ rcv.id := by
                   rw [getCopy_id, hrid]; exact hsig.notName
-                have := execName_total (bp := bp) (st := st) rfl herr hsc m1 hne (getCopy_id _ _) hrid hg
+                have := execName_total (bp := bp) (st := st) rfl herr hsc m1 hne
                 rw [(successBranch_w _ _ _ _ _ _ _).2.1]
                 omega
               · simp at herr
@@ -369,11 +369,11 @@ theorem executeTx_total' {c : Ctx} {w : World} {bp : Nat} {tx : Tx} {res : Resul
             · exact finishVm_total hsc hso m1 m2 hne (fun _ h => by simp only [getCopy_cur]; exact hcov.2) (by simp) hl
 
 /-- **Σ balances + BpReward is invariant under `executeTx`**, for every transaction type and outcome,
-outside the three defect shapes (`nameGuard`, `leak`). -/
+outside the defect shape flagged `leak`. -/
 theorem executeTx_total {c : Ctx} {w : World} {bp : Nat} {tx : Tx}
-    (hsig : Signable w tx) (hfd : FdTarget w tx) (hg : nameGuard w tx)
+    (hsig : Signable w tx) (hfd : FdTarget w tx)
     (hl : (executeTx c w bp tx).leak = false) :
     (executeTx c w bp tx).w.total + (executeTx c w bp tx).bp = w.total + bp :=
-  executeTx_total' hsig hfd hg rfl hl
+  executeTx_total' hsig hfd rfl hl
 
 end Aergo.Ledger
